@@ -20,6 +20,13 @@ const goodOutput = `{"header":{},"body":{"v":1}}`
 const goodOutput2 = `{"header":{"x":"y"}}`
 const badOutput = `{"body":{}}`
 const badOutput2 = `{"header":7,"body":{}}`
+// outputs that are valid JSON (the stateless validation demands no more) and fail / pass the output schema in different
+// ways: header missing, of the wrong type or null, spelled in another letter case; body of the wrong type or null; a
+// document that is not an object at all; additional members and nested values are fine
+var badOutputs = []string{badOutput, badOutput2, badOutput, badOutput2, `{"header":{},"body":null}`, `{"Header":{},"body":{}}`, `{"header":null}`,
+	`[]`, `"x"`, `7`, `null`, `{"header":{},"body":[]}`, `{"header":{},"body":"b"}`, `{"header":[],"body":{}}`, `{"HEADER":{}}`, `{}`}
+var goodOutputs = []string{goodOutput, goodOutput2, goodOutput, goodOutput2, `{"header":{},"body":{},"extra":1}`, `{"header":{"a":[1,2]},"body":{"n":null}}`, `{"header":{},"Body":7}`}
+
 const goodInput = `{"header":{},"body":{}}`
 const goodSchemas = `{"input":{"type":"object"},"output":{"type":"object"}}`
 
@@ -723,7 +730,7 @@ func (g *Gen) providersAct() {
 		timeout := int(q.ExpirationHeight - q.RequestHeight)
 		switch {
 		case r < 0.55*p:
-			m := MsgOp{T: "respond", Req: ref, Result: okResult, Output: pickStr(g, []string{goodOutput, goodOutput2})}
+			m := MsgOp{T: "respond", Req: ref, Result: okResult, Output: pickStr(g, goodOutputs)}
 			delay := 0
 			if g.chance(0.4) {
 				delay = g.pick(timeout) // up to the expiry block
@@ -738,7 +745,7 @@ func (g *Gen) providersAct() {
 				g.x.stats.inc("targeted_double_response")
 			}
 		case r < 0.68*p:
-			g.submit(g.tx(pi, MsgOp{T: "respond", Req: ref, Result: okResult, Output: pickStr(g, []string{badOutput, badOutput2})}), g.pick(timeout))
+			g.submit(g.tx(pi, MsgOp{T: "respond", Req: ref, Result: okResult, Output: pickStr(g, badOutputs)}), g.pick(timeout))
 		case r < 0.78*p:
 			g.submit(g.tx(pi, MsgOp{T: "respond", Req: ref, Result: errResult}), g.pick(timeout))
 		case r < 0.86*p:
